@@ -186,12 +186,15 @@ class Cfg:
         self.wait = 1; self.dense = 0; self.mode = 1; self.angle = 0; self.nblk = 1
         self.min = 0.0; self.max = 0.0; self.start = 0; self.end = 36000
         self.lclock = 1; self.tsfirst = 0; self.pktcb = 0; self.tz = 0; self.user = 0; self.tail = 0
+        self.from_file = 0  # config_from_file with a missing angle file (CF directive)
         self.tf = None      # ENABLE_TRANSFORM builds: (x, y, z, roll, pitch, yaw) as binary32 values
         self.__dict__.update(kw)
 
     def line(self, i, lidar):
         d = (f'D {i} {lidar.code} {self.wait} {self.dense} {self.mode} {self.angle} {self.nblk} {F32(self.min)} {F32(self.max)} '
              f'{self.start} {self.end} {self.lclock} {self.tsfirst} {self.pktcb} {self.tz} {self.user} {self.tail}')
+        if self.from_file:
+            d += f'\nCF {i}'
         if self.tf is not None:
             d += f'\nTF {i} ' + ' '.join(str(F32(v)) for v in self.tf)
         return d
